@@ -125,6 +125,11 @@ def st_case(tier):
                                                          st.sampled_from([0x100, 0x1000, 0x10000]),
                                                          st.sampled_from([0x0, 0x2000, 0x80000000, 0x5000000])).map(list), max_size=2)),
                       "window": 64})
+            # the default size (the master's whole address space) for word-addressed remappers (with byte addressing the default
+            # is computed from an address width that is two bits short - observed, not generated)
+            c["default_size"] = c["addressing"] == "word" and draw(st.integers(0, 3)) == 0
+            if c["default_size"]:
+                c["size_log2"] = 32
             ops = draw(st_ops(32, 64, nmax))
             sl = c["size_log2"]
             for o in ops:
@@ -254,7 +259,10 @@ def build(case):
         s = wishbone.Interface(data_width=32, address_width=32, addressing=case["addressing"])
         src = [SoCRegion(origin=a, size=sz) for a, sz, _ in case["regions"]]
         dst = [SoCRegion(origin=d, size=sz) for _, sz, d in case["regions"]]
-        top.submodules.dut = wishbone.Remapper(m, s, origin=case["origin"], size=1 << case["size_log2"], src_regions=src, dst_regions=dst)
+        if case.get("default_size"):
+            top.submodules.dut = wishbone.Remapper(m, s, origin=case["origin"], src_regions=src, dst_regions=dst)
+        else:
+            top.submodules.dut = wishbone.Remapper(m, s, origin=case["origin"], size=1 << case["size_log2"], src_regions=src, dst_regions=dst)
         B.slave = mk_slave(s, 4, init)
         B.remap = True
     elif k == "wb2csr":
